@@ -83,7 +83,7 @@ PROPERTY_META = {
                 design_ref='DESIGN.md 6 C14'),
     'C15': dict(claimed=True, level='model_checking',
                 text='The real cntgs::detail::uninitialized_construct (the single funnel of every FixedSize/VaryingSize store) is verified per stored type x source value type x source form (pointer, std::array lvalue and rvalue, C array, non-contiguous generated iterator, aliasing-safe path) against: stored item k == StoredType(source item k) evaluated in C on the scalar types for an arbitrary witness k, returned end == target + n items, and an assigns clause that contains only the target items (sources unmodified). emplace_at is proved (unbounded) to pass its arguments to these stores at the right addresses.',
-                note='Bounded: at most 4 items per span (copy loops unwound with unwinding assertions); the memcpy branch is covered by the copy model that is exact at the witness item. For the non-trivial vf::Tracked the FixedSize store is verified to copy-construct every item of an lvalue std::array exactly once without moving from it, and to move from every item of an rvalue array exactly once. A std::reverse_iterator over a pointer is under the same contract for uint32_t (known finding D22: the pinned tree takes it for contiguous and memcpys forward). A class type with a converting constructor from the source type (vf::Wrap <- uint32_t) is under the same contract for all six source forms (known finding D23: the pointer and std::array forms memcpy the source bytes). std::list, move_iterator and std::deque iterators are not under contract; conversions that are undefined in C++ (float out of range) are excluded by precondition.',
+                note='Bounded: at most 4 items per span (copy loops unwound with unwinding assertions); the memcpy branch is covered by the copy model that is exact at the witness item. For the non-trivial vf::Tracked the FixedSize store is verified to copy-construct every item of an lvalue std::array exactly once without moving from it, and to move from every item of an rvalue array exactly once. A std::reverse_iterator over a pointer is under the same contract for uint32_t (known finding D22: the pinned tree takes it for contiguous and memcpys forward). A class type with a converting constructor from the source type (vf::Wrap <- uint32_t) is under the same contract for all six source forms (known finding D23: the pointer and std::array forms memcpy the source bytes). A std::move_iterator<Tracked*> source is verified to be moved from exactly once per item (conv.tracked.move_iterator). std::list and std::deque iterators are not under contract; conversions that are undefined in C++ (float out of range) are excluded by precondition.',
                 design_ref='DESIGN.md 6 C15'),
     'C11': dict(claimed=True, level='model_checking',
                 text='operator[] and iterator dereference (both const overloads) are verified to build a reference whose pointers are exactly the stored objects of the indexed element (so every access path denotes the same objects); iterator.data() is the element start; reference = reference is verified per list (trivial fields coalesced into memmove runs, vf::Tracked fields through the value type) against: trivial fields hold the source bytes (witness address), every non-trivial item is copy- resp. move-assigned exactly once from the item at the same place, an lvalue source is not moved from and not written; swap exchanges trivial bytes and swaps non-trivial items through their move operations.',
@@ -181,6 +181,10 @@ def units(tier, seed=0):
         us.append(dict(id='conv.wrap_from_u32.%s' % form, tu='conv_wrap_u32', gen=wcxx, template_text=wtxt, vars={}, entry='h_uc', enforce='@F{%s}' % conv.FORMS[form][0], replace=[],
                        props=['C15', 'C01'], layer='memory.hpp/typeTraits.hpp', kind='bounded(items <= 4, copy loop unwound)', unwind=6, cdefs=['VF_WINDOWS=1'],
                        config='conversion: vf::Wrap (converting constructor) <- u32, %s' % form))
+    # C15: a std::move_iterator source is moved from exactly once per item, n items are consumed
+    us.append(dict(id='conv.tracked.move_iterator', tu='conv_tracked_mvit', gen=MVIT_CXX, template_text=MVIT_UNIT, vars={}, entry='h_uc', enforce='@F{%s}' % MVIT_RX, replace=[],
+                   props=['C15', 'C06'], layer='memory.hpp', kind='bounded(items <= 4, copy loop unwound)', unwind=6, cdefs=['VF_TRACKED=1'],
+                   config='conversion: Tracked <- std::move_iterator<Tracked*>'))
     for spec, flags in elem.ELEM_CATALOGUE[tier]:
         for f in flags:
             txt, L = elem.c_unit(spec, f)
@@ -374,6 +378,41 @@ struct Wrap
 };
 }  // namespace vf
 '''
+MVIT_RX = r'cntgs::detail::uninitialized_construct<true, vf::Tracked, std::move_iterator<'
+MVIT_CXX = '''// units.py: stored type vf::Tracked, source std::move_iterator<vf::Tracked*>: forwarding call only
+#include "support.hpp"
+#include <cntgs/contiguous.hpp>
+#include <iterator>
+extern "C" {
+std::byte* vfx_mvit(const std::move_iterator<vf::Tracked*>& it, vf::Tracked* a, std::size_t n) { return cntgs::detail::uninitialized_construct<true>(it, a, n); }
+}
+'''
+MVIT_UNIT = '''/* units.py: uninitialized_construct of vf::Tracked items from a std::move_iterator<vf::Tracked*> */
+#include <stdlib.h>
+#include "prelude.h"
+#include "{{TU_C}}"
+#define MAXN 4ull
+#define F_UC @F{%(rx)s}
+typedef @T{%(rx)s|0} SRCp;
+typedef @T{%(rx)s|1} TGTp;
+uint64_t g_k; /* witness item index: the watched object is source item g_k */
+uint8_t *F_UC(SRCp src, TGTp address, uint64_t n)
+__CPROVER_requires(__CPROVER_r_ok(src, sizeof(*src)) && n <= MAXN && __CPROVER_rw_ok(src->f0, 4 * MAXN) && __CPROVER_w_ok(address, 4 * MAXN) && g_o == (uint8_t *)src->f0 + 4 * g_k && g_k < MAXN)
+__CPROVER_ensures(__CPROVER_return_value == (uint8_t *)address + 4 * n) /* C15: exactly as many items are consumed and stored as the parameter holds */
+__CPROVER_ensures(g_obj_move == __CPROVER_old(g_obj_move) + n && g_obj_copy == __CPROVER_old(g_obj_copy)) /* C15 C06: every item of a move_iterator source is move-constructed from exactly once, none is copied */
+__CPROVER_ensures(g_o_alive && g_o_moved_from == (g_k < n ? 1 : 0)) /* C15: exactly the first n source items are moved from (witness item), all stay alive */
+__CPROVER_assigns(__CPROVER_object_upto((uint8_t *)address, 4 * MAXN), __CPROVER_object_upto((uint8_t *)src->f0, 4 * MAXN), g_obj_live, g_obj_copy, g_obj_move, g_o_moved_from)
+;
+void h_uc(void)
+{
+    uint64_t n = nondet_u8(); __CPROVER_assume(n <= MAXN);
+    uint8_t *s = malloc(4 * MAXN); SRCp src = malloc(sizeof(*src)); src->f0 = (void *)s; TGTp a = malloc(4 * MAXN);
+    g_k = nondet_u8(); __CPROVER_assume(g_k < MAXN);
+    g_o = s + 4 * g_k; g_o_alive = 1; g_o_moved_from = 0; g_o_how = 0; g_o_from = 0; g_o_asg = 0;
+    g_obj_live = 64; g_obj_copy = nondet_u8(); g_obj_move = nondet_u8();
+    F_UC(src, a, n);
+}
+''' % dict(rx=MVIT_RX)
 REV_RX = r'cntgs::detail::uninitialized_construct<true, [^,]*, std::reverse_iterator<'
 REV_CXX = '''// units.py: stored type uint32_t, source std::reverse_iterator<const uint32_t*>: forwarding call only
 #include "support.hpp"
